@@ -115,6 +115,13 @@ func c06Program(r *Rand, mode int) *ProgCase {
 		vals[name] = v
 		names = append(names, name)
 	}
+	if ne > 1 && r.Chance(1, 3) {
+		// the definitions in reverse order: every name an EQU body mentions is then defined further down
+		k := len(p.Stmts) - ne
+		for i, j := k, len(p.Stmts)-1; i < j; i, j = i+1, j-1 {
+			p.Stmts[i], p.Stmts[j] = p.Stmts[j], p.Stmts[i]
+		}
+	}
 	nu := r.Range(2, 6)
 	// the walker needs offsets to evaluate $: statements are appended one by
 	// one and $ is given its value from a running size estimate, so $ is only
